@@ -85,7 +85,8 @@ __CPROVER_ensures(__CPROVER_return_value == 0 ==> VF_EC_POINT_WF(*res))
 	__CPROVER_assigns(VF_EC_STATUS_ASSIGNS, vf_g.unkpt)	\
 	__CPROVER_ensures(VF_EC_STATUS_ENSURES)						\
 	__CPROVER_ensures(vf_st_unkpt == __CPROVER_return_value && vf_n_unkpt == __CPROVER_old(vf_n_unkpt) + 1u &&	\
-	    vf_unkpt_point == VF_ID(point) && vf_unkpt_d == VF_ID(d) && vf_unkpt_curve == VF_ID(curve))
+	    vf_unkpt_point == VF_ID(point) && vf_unkpt_d == VF_ID(d) && vf_unkpt_curve == VF_ID(curve) &&	\
+	    vf_unkpt_inf == point->infinity)
 #endif
 static inline int
 ec_point_unknown_pt_mult(ec_point_p point, bn_p d, ec_curve_p curve)
